@@ -2,10 +2,28 @@
 import vf
 
 META = {
-    "claimed": False,
-    "text": "work in progress",
-    "note": "",
-    "technique": "Coq proof (simulation invariant between a heap-level executor and naive evaluation) + model/implementation correspondence",
+    "claimed": True,
+    "text": ("Coq theorems over a HEAP-level model of Graph::run_plan (src/graph.rs): buffers, temp_values as an ownership map, the u8 "
+             "NodeRefCount with sticky saturation, owned vs borrowed inputs, the in-place decision (refcount==1 and owned), the commutative "
+             "operand choice, take_value, by-value capture extraction, release to the pool at refcount 0, pool reuse of released buffers, "
+             "output extraction; reads of released buffers and the executor's panics are distinct outcomes. Proved for ALL graphs, plans, "
+             "inputs and operator semantics satisfying the run_in_place contract: the executor returns exactly the outcome of the naive "
+             "evaluation (every operator on fresh copies, plan order) under EVERY strategy - pool on/off, any subset of operators run in "
+             "place, any commutative operand choice, any recycled buffer, any owned/borrowed split of the inputs (C02_run_plan_refines_naive, "
+             "C02_run_refines_naive, C02_strategy_irrelevant and the three named corollaries); use-after-release and failed takes are "
+             "unreachable (C02_no_use_after_free); the naive evaluation itself does not depend on the order of the plan "
+             "(C02_naive_eval_order_independent: two duplicate-free plans over single-producer operators). Refinement pattern: the check "
+             "alarms only when the IMPLEMENTATION's outputs differ from naive_eval (prop_ok); agreement with the deterministic model of "
+             "today's policy (which operand is taken in place, per step) is recorded as executor_model_disagreements. "
+             "Tie: random DAGs of table-driven test operators (integer hashes; in-place capable, commutative, buffer-overwriting, "
+             "multi-output, repeated/optional inputs, >=255 uses of one value, run inputs that are also operator outputs, inputs/constants "
+             "requested as outputs) on the real Graph::run under owned/borrowed x RTEN_USE_POOL x 1/2/16 threads x never-in-place build. "
+             "Finding F11b (owned vs borrowed input that is also an operator output) fixed in the tree the check runs against."),
+    "note": ("Trusted: Coq kernel; correspondence sample; the Operator::run_in_place contract is a hypothesis (it is C13's subject); thread count, "
+             "weight prepacking and the BufferPool's memory reuse are run-time effects only exercised by the strategy matrix (test operators are "
+             "single-threaded; prepack is not exercised); subgraph operators appear as black boxes that read their captures (C24); "
+             "order independence is stated for evaluations that succeed (operator errors excluded)."),
+    "technique": "Coq proof (simulation invariant between a heap-level executor and naive evaluation; equation-consistency argument for order independence) + model/implementation correspondence",
 }
 GROUP = "exec"
 REQ = ("From RV Require Import Prelude.\nFrom Planner Require Import Graph.\n"
@@ -16,15 +34,52 @@ THEOREMS = ["C02_run_plan_refines_naive", "C02_no_use_after_free", "C02_run_refi
             "C02_test_operators_meet_contract", "C02_prop_ok_reflect", "C02_nonvacuous"]
 
 
+def one_pass(ctx, name, cases, agree, prop_ok, show, shard, fn_name, classify=None):
+    """Evaluate the informational model-agreement function and the property oracle in ONE Coq pass
+    over all cases (case terms are large), then hand only the cases that fail the oracle to
+    ctx.correspond (which alarms, classifies known findings and writes replay files).
+    Returns the indices on which the implementation deviates from the deterministic model."""
+    import hashlib
+    dis, pf, err = ctx.coq_eval_cases(GROUP, REQ, [c["term"] for c in cases], agree, prop_ok, shard, tag="all")
+    if err:
+        raise vf.CheckerBroken("model evaluation failed for %s: %s" % (name, err))
+    bad = set(pf)
+    for i, c in enumerate(cases):
+        if i in bad:
+            continue  # accounted for by ctx.correspond below
+        ctx.evals += 1
+        t = c.get("tag", "")
+        ctx.hist[t] = ctx.hist.get(t, 0) + 1
+        if not t.startswith("trivial"):
+            ctx.distinct.add(hashlib.sha1(c["input"].encode()).hexdigest())
+    for c in cases[:3]:
+        if len(ctx.samples) < 12:
+            ctx.samples.append({"check": name, "input": c["input"][:400], "tag": c.get("tag", "")})
+    ctx.log("correspondence %s: %d cases, %d fail the property oracle, %d deviate from the deterministic model"
+            % (name, len(cases), len(pf), len(dis)))
+    if pf:
+        ctx.correspond(name, GROUP, REQ, [cases[i] for i in pf], classify=classify, agree=prop_ok, prop_ok=prop_ok,
+                       show=show, shard=shard, fn_name=fn_name)
+    else:
+        ctx.corr.append({"name": name, "cases": len(cases), "disagree": 0, "property_failures": 0})
+    return dis
+
+
 def main(ctx):
+    ctx.rule = ("seeded random DAGs (1..14 test operators, arity 0..3, 1..2 outputs, optional/repeated inputs, in-place positions incl. "
+                "out-of-range ones, commutative / buffer-overwriting flags) over 1..4 inputs and 0..2 constants, tensors of 1..40 i32 (>=32 "
+                "elements go through the BufferPool); 5..8 strategies per case; plus sticky-refcount graphs (254..300 uses) and the corpus; "
+                "non-trivial = the plan has at least one operator")
+    ctx.trusted += ["Operator::run_in_place contract (C13) is assumed of operators; the test operators meet it (C02_test_operators_meet_contract)",
+                    "thread pools, prepacked weights and allocator-level buffer reuse are run-time effects (strategy matrix only)"]
+    ctx.assumptions += ["requested outputs are distinct and planned operators write value nodes (guaranteed by the planner, C03)"]
     ctx.audit(GROUP, "planner")
     failed = ctx.prove(GROUP, "Props_C02", THEOREMS) if THEOREMS else []
     bindir = ctx.harness(GROUP, profile="release", bins=["c02"])
     cases = ctx.gen_exec(bindir, "c02", ctx.n(300, 6000), inputs=ctx.replay_inputs())
-    ctx.correspond("Graph::run-vs-naive_eval", GROUP, REQ, cases, agree="prop_ok", prop_ok="prop_ok", show="show",
-                   shard=40, fn_name="Exec.ExecModel.naive_eval (outputs under every strategy)")
-    dis, _, err = ctx.coq_eval_cases(GROUP, REQ, [c["term"] for c in cases], "agree", "prop_ok", 40, tag="det")
-    ctx.extra["executor_model_disagreements"] = (len(dis) if not err else "evaluation error: " + str(err)[:300])
+    dis = one_pass(ctx, "Graph::run-vs-naive_eval", cases, "agree", "prop_ok", "show", 40,
+                   "Exec.ExecModel.naive_eval (outputs under every strategy)")
+    ctx.extra["executor_model_disagreements"] = len(dis)
     if dis:
         ctx.log("note: %d case(s) deviate from the deterministic model of today's executor (in-place policy); first: %s"
                 % (len(dis), cases[dis[0]]["input"][:300]))
